@@ -28,7 +28,7 @@ Mirror: for every handle the static definition path, the chain of ItemSpace keys
 
 Not generated (known findings of other properties / of C13):
   (D22, del Src while a value was computed from S.k through the attribute path, is repaired in /repo: generated, counted del_Src_after_attr_read)
-  D38  (C07) a new parameter formula of a *child* space does not reach live dynamic copies: only P's formula is changed
+  (D38 (C07), a new parameter formula of a *child* space, is repaired in /repo: generated as setparams_C)
 """
 import copy
 
@@ -237,7 +237,8 @@ class Gen:
         r = self.rng
         kinds = ["del_cell", "del_cell", "setformula", "setformula", "setvalue", "clear", "set_k", "del_k", "set_g", "del_g",
                  "del_root_item", "clear_root_items", "del_nested_item", "clear_nested_items", "del_space_C", "del_space_T",
-                 "del_space_P", "del_space_Src", "del_level_cells", "new_cells_in_copy", "new_ref_in_copy", "setparams_P"]
+                 "del_space_P", "del_space_Src", "del_level_cells", "new_cells_in_copy", "new_ref_in_copy", "setparams_P",
+                 "setparams_C"]
         k = kind or r.choice(kinds)
         dead = None
         if k in ("del_cell", "setformula", "setvalue", "clear"):
@@ -372,6 +373,15 @@ class Gen:
             if lv["pf"] == "none":
                 lv["pf"] = "const"
             self.emit(op="setparams", h="P", pf=pf_src(lv["pf"], lv["param"], lv["rname"], r.randint(1, 9)), dead=dead)
+        elif k == "setparams_C":
+            # D38 (C07) is repaired in /repo: a new parameter formula of the CHILD space discards every ItemSpace of P
+            # (each holds a dynamic copy of C with the old formula)
+            if "C" not in self.H or self.H["C"].get("gone") or self.H["P"].get("gone"):
+                return False
+            lv = self.levels[1]
+            dead = self.kill(lambda h: len(h["chain"]) >= 1)
+            lv["pf"] = r.choice(["const", "a", "b", "k", "g"])
+            self.emit(op="setparams", h="C", pf=pf_src(lv["pf"], lv["param"], lv["rname"], r.randint(1, 9)), dead=dead)
         else:
             return False
         self.mark_gone(dead)
